@@ -32,7 +32,7 @@ fn envelope(tid: u32, ro: bool, rs: ResponseSpecific) -> Message {
 }
 
 //@ ob: C02.O4a
-//@ tier: quick
+//@ tier: thorough
 //@ cap: 2700
 //@ mem: 20
 //@ standins: tracing lru vcoll
